@@ -24,7 +24,7 @@ def sweep_scenario(run_seed, tier):
     ops = []
     evals = [i for i, op in enumerate(sc["ops"]) if op["op"] == "eval"]
     builds = [i for i, op in enumerate(sc["ops"]) if op["op"] == "build"]
-    n_ev = len(evals) if tier == "thorough" else min(len(evals), 3)
+    n_ev = len(evals) if tier == "thorough" else min(len(evals), 2)
     pick_e = set(r.sample(evals, n_ev)) if evals else set()
     pick_b = set(r.sample(builds, 1)) if builds else set()
     for i, op in enumerate(sc["ops"]):
@@ -32,13 +32,32 @@ def sweep_scenario(run_seed, tier):
         if i in pick_e:
             ops.append({"op": "sweep_eval", "target": op["target"], "root": op["root"], "part": op["part"],
                         "frame": op["frame"], "stride": 1, "alternate": tier != "thorough",
-                        "mode": r.choice(["line", "call"]), "fault": None})
+                        "mode": r.choice(["line", "call"]), "cold": op["target"] == op["root"] and r.random() < 0.5,
+                        "fault": None})
         if i in pick_b:
             ops.append({"op": "sweep_build", "client": op["client"], "formula": op["formula"],
                         "frame": op["frame"], "na_action": op["na_action"], "fm": op["fm"],
                         "stride": r.choice([5, 7, 11, 13]), "offset": r.randrange(13),
                         "max_points": 400 if tier == "thorough" else 120,
                         "mode": r.choice(["line", "call"]), "fault": None})
+    # targeted: the FIRST evaluation of an unseen-level frame under a lenient mode, swept cold (lazily
+    # initialised state is built exactly there), on one or two designs
+    built = [op for op in sc["ops"] if op["op"] == "build"]
+    for b in r.sample(built, min(len(built), 2 if tier == "thorough" else 1)):
+        fm = b["fm"]
+        train = sc["frames"][b["frame"]]
+        part = "group" if fm["groups"] and r.random() < 0.5 else "common"
+        clean = g.shape_new_frame(g.fresh_frame(train, fm, n=r.choice([2, 4, 6])), fm)
+        got = g.pollute(clean, fm, part)
+        if got is None:
+            continue
+        polluted, where = got
+        fid = g.new_frame_id("N")
+        sc["frames"][fid] = polluted
+        ops.append({"op": "set_config", "style": r.choice(["attr", "item"]), "key": KEY,
+                    "value": r.choice(["warning", "silent"]), "valid": True, "fault": None})
+        ops.append({"op": "sweep_eval", "target": b["id"], "root": b["id"], "part": part, "frame": fid, "stride": 1,
+                    "mode": r.choice(["line", "call"]), "cold": True, "fault": None})
     for j, op in enumerate(ops):
         op["n"] = j
     sc["ops"] = ops
